@@ -50,7 +50,7 @@ def handleHSet (_c : Ctx) (cmd : List Bytes) : Prog Res :=
             setOrErr [(key, .hash merged)] (.ret (.ok (intReply count)))
           else
             let merged := hash.foldl (fun (m : KMap Scalar) (f, v) => if (m.get f).isNone then m.put f v else m) entries
-            setOrErr [(key, .hash merged)] (.ret (.ok (intReply merged.length)))
+            setOrErr [(key, .hash merged)] (.ret (.ok (intReply entries.length)))
   | _ => .ret (.err wrongArgs)
 
 /-- shared prologue of the hash readers: arity, existence, type -/
